@@ -203,10 +203,58 @@ func c04Run(req wrapReq, resp *drv.Response) error {
 	for _, c := range g.capIdx {
 		selCap[c] = true
 	}
+	// permutations of the right key's own entries: the same multiset of commitments, different positions
+	var cases []c04Case
 	for _, c := range req.C04 {
+		if c.Kind != "permute" {
+			cases = append(cases, c)
+			continue
+		}
+		for i := 0; i < 16; i++ {
+			if !selCap[i] {
+				continue
+			}
+			for _, j := range []int{(i + 1) % 16, (i + 4) % 16, (i + 15) % 16} {
+				cases = append(cases, c04Case{Kind: "swap", Path: fmt.Sprintf("VD.ConstantSigmasCap[%d]", i), Op: fmt.Sprint(j), Wrapper: c.Wrapper})
+			}
+			if len(cases) > 12 {
+				break
+			}
+		}
+		cases = append(cases, c04Case{Kind: "rotate", Op: "1", Wrapper: c.Wrapper}, c04Case{Kind: "rotate", Op: "8", Wrapper: c.Wrapper})
+	}
+	for _, c := range cases {
 		asg := data.Load(inst, req.K)
 		sel := "n/a"
 		switch c.Kind {
+		case "swap", "rotate":
+			var i, j, sh int
+			fmt.Sscanf(c.Path, "VD.ConstantSigmasCap[%d]", &i)
+			fmt.Sscanf(c.Op, "%d", &j)
+			sh = j
+			leaves := map[int]data.Leaf{}
+			for _, lf := range data.Walk(&asg.VD) {
+				var n int
+				if _, e := fmt.Sscanf("VD."+lf.Path, "VD.ConstantSigmasCap[%d]", &n); e == nil {
+					leaves[n] = lf
+				}
+			}
+			if len(leaves) != 16 {
+				return fmt.Errorf("expected 16 cap leaves, found %d", len(leaves))
+			}
+			vals := make([]*big.Int, 16)
+			for n := 0; n < 16; n++ {
+				vals[n] = new(big.Int).Set(leaves[n].Get())
+			}
+			if c.Kind == "swap" {
+				leaves[i].Set(vals[j])
+				leaves[j].Set(vals[i])
+			} else {
+				for n := 0; n < 16; n++ {
+					leaves[n].Set(vals[(n+sh)%16])
+				}
+			}
+			sel = "true"
 		case "entry":
 			found := false
 			for _, lf := range data.Walk(&asg.VD) {
@@ -254,6 +302,9 @@ func c04Run(req wrapReq, resp *drv.Response) error {
 			cls := c.Kind
 			if c.Kind == "entry" {
 				cls = classOf(c.Path)
+			}
+			if c.Kind == "swap" || c.Kind == "rotate" {
+				cls = "permuted-cap/" + c.Kind
 			}
 			resp.Violate(fmt.Sprintf("c04/key/accept cls=%s selected=%s", cls, sel),
 				fmt.Sprintf("%s k=%d wrapper=%s: a wrapper built for this circuit accepts the proof together with a different verifier key (%s %s %s %s)", req.Instance, req.K, c.Wrapper, c.Kind, c.Path, c.Op, c.Other),
